@@ -393,3 +393,73 @@ func TestC17SniffStress(t *testing.T) {
 		t.Fatalf("%s", strings.Join(failures, "\n"))
 	}
 }
+
+// TestC17RegistryStress: every goroutine owns one private registry key and is its only writer, so each of its
+// lookups must return its own latest registration (or "absent" after its own removal) whatever the other
+// goroutines do to their keys; a lost or resurrected registration is visible immediately. Fixed program.
+func TestC17RegistryStress(t *testing.T) {
+	const workers, rounds = 8, 1500
+	uvals := []native.Unserializer{drivers.NewCDX("1.0", formats.JSON), drivers.NewCDX("1.1", formats.JSON), drivers.NewSPDX23()}
+	svals := []native.Serializer{sdrivers.NewCDX("1.0", formats.JSON), sdrivers.NewCDX("1.1", formats.JSON), sdrivers.NewSPDX23()}
+	var wg sync.WaitGroup
+	var mu sync.Mutex
+	var failures []string
+	fail := func(f string, a ...any) {
+		mu.Lock()
+		if len(failures) < 5 {
+			failures = append(failures, fmt.Sprintf(f, a...))
+		}
+		mu.Unlock()
+	}
+	start := make(chan struct{})
+	for g := 0; g < workers; g++ {
+		wg.Add(1)
+		go func(g int) {
+			defer wg.Done()
+			key := formats.Format(fmt.Sprintf("application/x-verif-stress-%d", g))
+			defer reader.UnregisterUnserializer(key)
+			defer writer.UnregisterSerializer(key)
+			<-start
+			for i := 0; i < rounds; i++ {
+				v := (g + i) % 3
+				reader.RegisterUnserializer(key, uvals[v])
+				writer.RegisterSerializer(key, svals[v])
+				if u, err := reader.GetFormatUnserializer(key); err != nil || u != uvals[v] {
+					fail("goroutine %d round %d: the unserializer it just registered under its private key is not returned (err=%v)", g, i, err)
+				}
+				if s, err := writer.GetFormatSerializer(key); err != nil || s != svals[v] {
+					fail("goroutine %d round %d: the serializer it just registered under its private key is not returned (err=%v)", g, i, err)
+				}
+				if i%2 == 0 {
+					reader.UnregisterUnserializer(key)
+					writer.UnregisterSerializer(key)
+					if _, err := reader.GetFormatUnserializer(key); err == nil {
+						fail("goroutine %d round %d: the unserializer it just removed is still registered", g, i)
+					}
+					if _, err := writer.GetFormatSerializer(key); err == nil {
+						fail("goroutine %d round %d: the serializer it just removed is still registered", g, i)
+					}
+				}
+				hx.Eval()
+			}
+		}(g)
+	}
+	close(start)
+	wg.Wait()
+	// the built-in drivers must have survived the storm
+	for _, f := range []formats.Format{formats.CDX14JSON, formats.CDX15JSON, formats.SPDX23JSON} {
+		if _, err := reader.GetFormatUnserializer(f); err != nil {
+			fail("built-in unserializer %s was lost: %v", f, err)
+		}
+		if _, err := writer.GetFormatSerializer(f); err != nil {
+			fail("built-in serializer %s was lost: %v", f, err)
+		}
+	}
+	hx.NonTrivial(hx.Digest("registry-stress"))
+	hx.NonTrivial(hx.Digest("registry-stress-2"))
+	hx.Sample(func() any { return "8 goroutines x 1500 rounds of register / lookup / unregister / lookup, each on its own private key" })
+	if len(failures) > 0 {
+		hx.RecordFailure("C17RegistryStress", strings.Join(failures, "; "), map[string]any{"program": "8 goroutines x 1500 rounds on private keys"})
+		t.Fatalf("%s", strings.Join(failures, "\n"))
+	}
+}
